@@ -1,1 +1,12 @@
 import Reamber.Props.C03
+#print axioms Reamber.C03.row_exact
+#print axioms Reamber.C03.row_error_lt_one
+#print axioms Reamber.C03.row_in_range
+#print axioms Reamber.C03.slotOf_num_lt_den
+#print axioms Reamber.C03.denMax_le_cap
+#print axioms Reamber.C03.den_dvd_denMax
+#print axioms Reamber.C03.padding_count
+#print axioms Reamber.C03.measure_at_index
+#print axioms Reamber.C03.round2_exact
+#print axioms Reamber.C03.selectable_roundtrip
+#print axioms Reamber.C03.bpms_round_counterexample
